@@ -236,7 +236,8 @@ def run(cx):
     rng = random.Random(cx.seed * 7919 + 14)
     workers = min(vlib.NCPU, 12)
     if quick:
-        graph_cfgs = [("mainpairs", (2, 1, 0, "full", False)), ("deep", (1, 2, 2, "small", False))]
+        graph_cfgs = [("mainpairs", (2, 1, 0, "full", False)), ("deep", (1, 2, 2, "small", False)),
+                      ("casepair", (2, 1, 0, "small", True))]
         maxseg, encs = 3, ["plain", "hexdots"]
         nsim, nrand = 150, 3000
         sim = (3, 2, 4, "full", True)
